@@ -324,9 +324,12 @@ def main():
         sys.exit(1)
     for k in vacuous:
         print("INCONCLUSIVE: vacuity witness %s unreachable in every program" % (k,))
+    kani_bad = kani is not None and kani.get("status") != "ok"
+    if kani_bad:
+        print("INCONCLUSIVE: Kani on the real unification.rs: %s %s" % (kani.get("status"), str(kani.get("detail", ""))[:600]))
     for d in cross["disagreements"][:5]:
         print("INCONCLUSIVE: kissat and z3 disagree on %s" % (d,))
-    if inconclusive or unconfirmed or val_bad or vacuous or cross["disagreements"]:
+    if inconclusive or unconfirmed or val_bad or vacuous or cross["disagreements"] or kani_bad:
         for r in inconclusive[:10]:
             print("INCONCLUSIVE: %s U=%d %s: %s" % (r["program"], r["U"], r["lemma"], r.get("reason", "")[:300]))
         for u in unconfirmed[:10]:
